@@ -121,13 +121,14 @@ func JsonContainerReader(container map[string]interface{}) node.Node {
 		// until one case aligns with data.  If no cases align then input in inconclusive
 		// i.e. non-discriminating and we should error out.
 		for _, kase := range choice.Cases() {
-			for _, prop := range kase.DataDefinitions() {
-				if _, found := fqkGet(prop, container); found {
-					return kase, nil
-				}
-				// just because you didn't find a property doesnt
-				// mean it's invalid, it's only if you don't find any
-				// of the properties of a case
+			// just because you didn't find a property doesnt
+			// mean it's invalid, it's only if you don't find any
+			// of the properties of a case
+			if caseHasData(kase, func(prop meta.Definition) bool {
+				_, found := fqkGet(prop, container)
+				return found
+			}) {
+				return kase, nil
 			}
 		}
 		// just because you didn't find any properties of any cases doesn't
